@@ -49,7 +49,8 @@ from harness.core import err_kind
 
 PID = 'C06'
 TITLE = 'Distributed runs survive worker timeouts and deaths: no lost or doubled work'
-LEAN_MODULES = ['MlModel.Properties.C06', 'MlModel.Properties.C06Val', 'MlModel.Witness.C06']
+LEAN_MODULES = ['MlModel.Properties.C06', 'MlModel.Properties.C06Val', 'MlModel.Properties.C06Rejoin', 'MlModel.Witness.C06',
+                'MlModel.Witness.C06Rejoin']
 REPO = os.environ.get('VERIF_REPO', '/repo')
 TRUSTED = [
     'the courier transport is harness/fakecourier (in-process): at-most-once handler execution, deadline errors carry '
